@@ -36,7 +36,7 @@ ASSUMPTIONS = [
     "file-name legality is judged against an independent statement of the UFO 'user name to file name' rules (illegal characters, reserved DOS names, no leading period, 255 characters, uniqueness ignoring case)",
     "designspace equality ignores the document's own path/filename and requires formatVersion to be monotone (the writer raises it when the content needs it)",
 ]
-EXPECTED_PROBES = ["A.reopen", "A.glyph_readback", "A.ci", "A.clash_candidate", "B.roundtrip", "C.roundtrip", "N.names"]
+EXPECTED_PROBES = ["A.backend.zip", "A.backend.osfs", "A.reopen", "A.glyph_readback", "A.ci", "A.clash_candidate", "B.roundtrip", "C.roundtrip", "N.names"]
 
 TIERS = {
     "quick": {"budget_s": 150, "determinism_sample": 16, "n": {"ufo": 9000, "designspace": 2500, "plist": 6000, "names": 6000}, "minimise_s": 40, "max_minimise": 4},
@@ -510,7 +510,7 @@ def generate(ctx, batch, idx):
             k = r.choice(kinds)
             ops.append([k, r.randrange(1 << 30)])
         ops.append(["reopen", r.randrange(1 << 30)])
-        return {"kind": "ufo", "ci": r.random() < 0.5, "fv": fv, "fsseed": r.randrange(1 << 30), "clash": r.random() < 0.5, "validate": r.random() < 0.9, "lxml": r.random() < 0.7, "ops": ops}
+        return {"kind": "ufo", "ci": r.random() < 0.5, "fv": fv, "fsseed": r.randrange(1 << 30), "clash": r.random() < 0.5, "validate": r.random() < 0.9, "lxml": r.random() < 0.7, "backend": r.choice(["simfs"] * 30 + ["osfs", "zip"]), "ops": ops}
     if batch == "designspace":
         return {"kind": "designspace", "seed": r.randrange(1 << 30), "lxml": r.random() < 0.7, "hiprec": r.random() < 0.05, "fmt": r.choice([None, None, "4.0", "4.1", "5.0", "5.1"]), "ops": [[r.choice(["axis", "axis", "discrete", "mapping", "rule", "source", "source", "instance", "label", "loclabel", "vf", "lib"]), r.randrange(1 << 30)] for _ in range(r.randint(1, 14))]}
     if batch == "plist":
@@ -554,7 +554,7 @@ class Rejected(Exception):
     pass
 
 
-def exec_ufo(ctx, h):
+def _exec_ufo(ctx, h, holder):
     from fontTools.ufoLib import UFOReader, UFOWriter
     from fontTools.ufoLib.errors import UFOLibError, GlifLibError
 
@@ -563,7 +563,24 @@ def exec_ufo(ctx, h):
     fv = h["fv"]
     glifv = 2 if fv >= 3 else 1
     clock = SimClock(start=1.6e9, regime="tick", step=1.0)
-    fs = SimFS(ci=h["ci"], rng=prng.sub("listdir", h["fsseed"]), clock=clock)
+    backend = h.get("backend", "simfs")
+    scratch = None
+
+    def fsname(n):
+        """Real file systems limit names in bytes, not characters: on the OSFS / zip backends user names are
+        kept to short ASCII so that the operating system's own limit never enters the picture."""
+        if backend == "simfs":
+            return n
+        return "".join(c for c in n if 32 <= ord(c) < 127)[:60] or "a"
+    if backend == "simfs":
+        fs = SimFS(ci=h["ci"], rng=prng.sub("listdir", h["fsseed"]), clock=clock)
+        target = fs
+    else:
+        # the real OSFS / ZipFS+TempFS code paths of fontTools.misc.filesystem, on a scratch directory
+        scratch = holder["scratch"] = tempfile.mkdtemp(prefix="verif-c19-")
+        fs = None
+        target = os.path.join(scratch, "Font é.ufo" if backend == "osfs" else "Font é.ufoz")
+        probes["A.backend." + backend] = 1
     if h["ci"]:
         probes["A.ci"] = 1
     model = {"layers": {}, "order": [], "default": None, "info": None, "kerning": None, "groups": None, "lib": None, "features": None, "data": {}, "images": {}, "layerinfo": {}}
@@ -574,7 +591,8 @@ def exec_ufo(ctx, h):
             res["violation"] = {"class": cls, "detail": detail + " [fv=%d ci=%s]" % (fv, h["ci"]), "sig": {"cls": cls}}
 
     def open_writer():
-        state["w"] = UFOWriter(fs, formatVersion=fv, validate=h.get("validate", True))
+        kw = {"structure": "zip"} if backend == "zip" and not os.path.exists(target) else {}
+        state["w"] = UFOWriter(target, formatVersion=fv, validate=h.get("validate", True), **kw)
         state["gsets"] = {}
 
     def gset(layer):
@@ -612,9 +630,10 @@ def exec_ufo(ctx, h):
                 pr = filename_problems(fn)
                 if pr:
                     fail("illegal-glyph-file-name", "glyph %r -> file %r (%d chars): %s" % (gname[:40], fn[:40], len(fn), pr))
-        if fs.clobbered:
+        if fs is not None and fs.clobbered:
             fail("write-replaced-another-names-file", "on the case-insensitive file system a write to %r landed on existing %r" % (fs.clobbered[0][1][:40], fs.clobbered[0][0][:40]))
-        res["states"].append(prng.digest([sorted(k for k in fs.nodes), sorted((str(a), str(b)) for a, b in (w.layerContents.items() if w is not None else [])), fv])[:20])
+        names = sorted(k for k in fs.nodes) if fs is not None else sorted(v.lower() for gs in state["gsets"].values() for v in gs.contents.values())
+        res["states"].append(prng.digest([names, sorted((str(a), str(b)) for a, b in (w.layerContents.items() if w is not None else [])), fv])[:20])
 
     def flush():
         w = state["w"]
@@ -633,7 +652,7 @@ def exec_ufo(ctx, h):
 
     def verify_reopen():
         probes["A.reopen"] = probes.get("A.reopen", 0) + 1
-        rd = UFOReader(fs, validate=True)
+        rd = UFOReader(target, validate=True)
         if fv >= 3:
             names = rd.getLayerNames()
             want = [ln for ln in model["order"]]
@@ -732,6 +751,7 @@ def exec_ufo(ctx, h):
                         probes["A.clash_candidate"] = probes.get("A.clash_candidate", 0) + 1
                     else:
                         gname = gen_name(r)
+                    gname = fsname(gname)
                     gseed = r.randrange(1 << 30)
                     g = gen_glyph(gseed, glifv)
                     gs.writeGlyph(gname, glyph_object(g), draw_points(g))
@@ -766,14 +786,14 @@ def exec_ufo(ctx, h):
                             state["gsets"][ly].writeLayerInfo(o)
                             model["layerinfo"][ly] = li
                 elif name == "newlayer":
-                    ly = do_newlayer(model, fv, r, default=model["default"] is None)
+                    ly = do_newlayer(model, fv, r, default=model["default"] is None, fsname=fsname)
                     if ly is not None:
                         gset(ly)
                 elif name == "renamelayer":
                     cands = [ly for ly in model["order"] if ly != model["default"]]
                     if cands:
                         old = r.choice(cands)
-                        new = r.choice(LAYER_NAMES)
+                        new = fsname(r.choice(LAYER_NAMES))
                         if new not in model["order"]:
                             if old in state["gsets"]:
                                 state["gsets"][old].writeContents()
@@ -826,7 +846,7 @@ def exec_ufo(ctx, h):
                         model["features"] = t
                 elif name == "data":
                     if fv >= 3:
-                        fn = r.choice(["com.example/a.bin", "x.txt", "com.example/sub/é.dat", "A.BIN"])
+                        fn = fsname(r.choice(["com.example/a.bin", "x.txt", "com.example/sub/é.dat", "A.BIN"]))
                         low = {k.lower(): k for k in model["data"]}
                         if fn.lower() in low and low[fn.lower()] != fn:
                             fn = low[fn.lower()]  # same file on a case-insensitive system: keep one spelling
@@ -834,7 +854,7 @@ def exec_ufo(ctx, h):
                         w.writeData(fn, data)
                         model["data"][fn] = data
                 elif name == "image":
-                    fn = r.choice(["image.png", "Sketch 1.png", "é.png"])
+                    fn = fsname(r.choice(["image.png", "Sketch 1.png", "é.png"]))
                     data = b"\x89PNG\r\n\x1a\n" + bytes(r.randrange(256) for _ in range(r.randint(0, 64)))
                     w.writeImage(fn, data)
                     model["images"][fn] = data
@@ -868,18 +888,28 @@ def exec_ufo(ctx, h):
     return res
 
 
-def do_newlayer(model, fv, r, default=False):
+def exec_ufo(ctx, h):
+    """Runs _exec_ufo and removes the scratch directory of the OSFS / zip backends."""
+    holder = {}
+    try:
+        return _exec_ufo(ctx, h, holder)
+    finally:
+        if holder.get("scratch"):
+            shutil.rmtree(holder["scratch"], ignore_errors=True)
+
+
+def do_newlayer(model, fv, r, default=False, fsname=lambda n: n):
     if fv < 3:
         if None not in model["layers"]:
             model["layers"][None] = {}
         return None
     if default:
-        name = r.choice(["public.default", "foreground", "Regular", "é"])
+        name = fsname(r.choice(["public.default", "foreground", "Regular", "é"]))
         if name in model["order"]:
             return name
         model["default"] = name
     else:
-        name = r.choice(LAYER_NAMES)
+        name = fsname(r.choice(LAYER_NAMES))
         if name in model["order"]:
             return name
     model["order"].append(name)
